@@ -173,13 +173,17 @@ def py_check(case, obs):  # noqa: F811
         why.append('reader did not terminate on %d prefixes (0.5 s limit each; sweep stopped after 3)' % sw['timeouts'])
     region = 0
     if c['fmt'] == 'wind':
-        region = 15 if (sw['timeouts'] or sw['bad']) else 0
-    elif sw['bad']:
-        region = 14 if c['fmt'] in MET_PREFIX_DEFECT else 0
+        # known: the reader never returns on some prefixes (C14-wind-prefix-hangs); a prefix that OPENS with
+        # wrong content is not part of that finding
+        region = 15 if (sw['timeouts'] and not sw['bad']) else 0
+    elif sw['bad'] and c['fmt'] == 'temperature':
+        # known: exactly the prefix holding the first two records (surface + one layer record) is taken for two
+        # one-record "steps" (C14-temperature-prefix-fabricated); any other accepted bad prefix is new
+        two_records = 2 * (c['nx'] * c['ny'] + 4) * 4
+        region = 14 if all(b[0] == two_records for b in sw['bad']) else 0
     return dict(s_ok=not why, region=region, why='; '.join(why), timeouts=sw['timeouts'])
 
 
-MET_PREFIX_DEFECT = ('temperature',)   # see known_findings/C14.json
 
 _nt_u = nontrivial
 
